@@ -154,3 +154,116 @@ func runImgSym(sc M) {
 	}
 	emit(M{"sc": id, "ev": "call-end", "call": "imgsym", "results": results, "expect": expect, "agree": len(bad) == 0, "bad": bad, "flips": nfl})
 }
+
+// Family "imglayout" (C02, thorough): the composition of spec/PeAuthenticode.tla and spec/Pkcs7Sym.tla.  For every layout
+// TLC enumerated (without a certificate table) the harness builds the image, computes the digest from the
+// specification's ranges, and attaches (a) an honest signature by k1/A over that digest, (b) the same structure
+// signed with k2 under A's issuer+serial, (c) an honest signature over another image's digest (transplant).
+// Expected by VerifyImage: (a) verifies against A only; (b), (c) never; no boundary flip of a covered region of (a)
+// leaves it verifying.
+func init() { families["imglayout"] = runImgLayout }
+
+func runImgLayout(sc M) {
+	id := sc["sc"]
+	l := layoutFrom(sc["img"].(M))
+	ev := M{"sc": id, "ev": "call-end", "call": "imglayout"}
+	if l.cert != 0 {
+		emit(M{"sc": id, "ev": "skip", "why": "layout already has a certificate table"})
+		return
+	}
+	img := buildPE(l, fmt.Sprint("c02l:", id))
+	if img.filelen != num(sc, "filelen") || img.cksum != num(sc, "cksum") || img.dd4 != num(sc, "dd4") {
+		ev["model_mismatch"] = "builder offsets differ from the specification"
+		emit(ev)
+		return
+	}
+	want, err := specDigest(img.b, list(sc, "ranges"), num(sc, "pad"))
+	if err != nil {
+		ev["model_mismatch"] = err.Error()
+		emit(ev)
+		return
+	}
+	otherD := sha256.Sum256(prbytes(fmt.Sprint("other-image:", id), 64))
+	dg := map[string][]byte{"m1": want, "m2": otherD[:]}
+	ti := &testImage{unsigned: img.b, img: img, layout: l, digest: want}
+	honest := symSigner{Sid: "A", SigKey: "k1", SigOver: "attrs_as_encoded", Attrs: "present", CT: "spc", MD: "m1", Order: "canonical"}
+	otherKey := honest
+	otherKey.SigKey = "k2"
+	transplant := honest
+	transplant.MD = "m2"
+	blobA := buildSymBlob("spc", "m1", []symSigner{honest}, "signer", true, dg)
+	blobK := buildSymBlob("spc", "m1", []symSigner{otherKey}, "signer", true, dg)
+	blobT := buildSymBlob("spc", "m2", []symSigner{transplant}, "signer", true, dg)
+	results := M{}
+	bad := []string{}
+	verify := func(name string, f []byte, cert string) string {
+		callStart(id, name, nil)
+		var ok bool
+		var err error
+		o, _ := guard(func() error {
+			p, e := authenticode.Parse(bytes.NewReader(f))
+			if e != nil {
+				err = e
+				return nil
+			}
+			ok, err = p.Verify(certByName(cert))
+			return nil
+		})
+		r := verdict(ok, err, o)
+		results[name] = r
+		if r == "panic" {
+			bad = append(bad, name+": panic "+o.Panic)
+		}
+		return r
+	}
+	yes := func(r string) bool { return r == "true" || r == "true+error" }
+	file := attachSignatures(ti, blobA)
+	if r := verify("honest/A", file, "A"); r != "true" {
+		bad = append(bad, "honest/A: image signed by k1 over the specification's digest does not verify against A ("+r+")")
+	}
+	if r := verify("honest/B", file, "B"); yes(r) {
+		bad = append(bad, "honest/B: verifies against a certificate whose key did not sign")
+	}
+	if r := verify("otherkey/A", attachSignatures(ti, blobK), "A"); yes(r) {
+		bad = append(bad, "otherkey/A: a signature by another key under A's issuer and serial verifies against A")
+	}
+	if r := verify("transplant/A", attachSignatures(ti, blobT), "A"); yes(r) {
+		bad = append(bad, "transplant/A: a signature over another image's digest verifies for this image")
+	}
+	if r := verify("both/A", attachSignatures(ti, blobT, blobA), "A"); r != "true" {
+		bad = append(bad, "both/A: the valid signature behind a transplanted one is not found ("+r+")")
+	}
+	nfl := 0
+	if results["honest/A"] == "true" {
+		for _, reg := range img.regions {
+			if reg.Name == "checksum" || reg.Name == "dd4.va" || reg.Name == "dd4.size" || reg.Name == "cert" {
+				continue
+			}
+			ps := []int{reg.From, reg.To - 1}
+			if reg.To-reg.From > 2 {
+				ps = append(ps, reg.From+1+int(prbytes(fmt.Sprint("c02mid", id, reg.Name), 1)[0])%(reg.To-reg.From-2))
+			}
+			for _, p := range ps {
+				if !covered(list(sc, "ranges"), p) {
+					continue
+				}
+				mut := append([]byte{}, file...)
+				mut[p] ^= 0x01 << (uint(p) % 8)
+				nfl++
+				if rr := verify("flip", mut, "A"); yes(rr) {
+					bad = append(bad, fmt.Sprintf("flip: signed image with covered byte %d (%s) changed still verifies", p, reg.Name))
+					break
+				}
+			}
+		}
+		delete(results, "flip")
+		// the checksum field is excluded from the digest: a signed image whose checksum was recomputed verifies
+		mut := append([]byte{}, file...)
+		mut[img.cksum] ^= 0x5a
+		if rr := verify("checksum-changed/A", mut, "A"); rr != "true" {
+			bad = append(bad, "checksum-changed/A: changing only the checksum field of a signed image stops it verifying ("+rr+")")
+		}
+	}
+	ev["results"], ev["agree"], ev["bad"], ev["flips"] = results, len(bad) == 0, bad, nfl
+	emit(ev)
+}
